@@ -484,7 +484,7 @@ fn show_bytes(bytes: &Option<Vec<u8>>) -> String {
 pub fn check(scn: &C11Scenario, stats: &mut RunStats) -> Result<Vec<Violation>, String> {
     let mut violations: Vec<Violation> = Vec::new();
     let lay = layout(scn, &scn.entries);
-    let with_output = scn.opts.output.is_some();
+    let with_output = separate_output(&scn.opts);
     stats.files = lay.expected.len();
 
     // --- run under test
@@ -1565,7 +1565,29 @@ pub fn generate(seed: u64) -> C11Scenario {
     scn.bad_files.dedup();
     scn.unwritable = unwritable_sources(&scn, &lay);
     scn.entries = entries;
+    // the other way to process in place: the input directory itself as output location,
+    // spelled the same way or not
+    if scn.opts.output.is_none() && !project.input_is_file && rk.chance(1, 3) {
+        let input = gen::normalize(&scn.opts.input);
+        let first = input.split('/').next().unwrap_or("").to_owned();
+        scn.opts.output = Some(match rk.below(5) {
+            0 => scn.opts.input.clone(),
+            1 => input.clone(),
+            2 => format!("./{}", input),
+            3 => format!("{}/", input),
+            _ => format!("{}/../{}", first, input),
+        });
+    }
     scn
+}
+
+/// An output location that is not the input itself (no output, or the input given again
+/// as output, is in-place processing).
+pub fn separate_output(opts: &crate::model::OptSpec) -> bool {
+    match &opts.output {
+        None => false,
+        Some(output) => gen::normalize(output) != gen::normalize(&opts.input),
+    }
 }
 
 // ------------------------------------------------------------------ property plumbing
@@ -1790,7 +1812,10 @@ impl Property for C11 {
         if scn.opts.fail_fast {
             counters.insert("runs_fail_fast".to_owned(), 1);
         }
-        if scn.opts.output.is_none() {
+        if scn.opts.output.is_some() && !separate_output(&scn.opts) {
+            counters.insert("runs_in_place_output_is_input".to_owned(), 1);
+        }
+        if !separate_output(&scn.opts) {
             counters.insert("runs_in_place".to_owned(), 1);
         }
         counters.insert(
